@@ -163,24 +163,24 @@ variable (full search : Str → Str → Bool) (caps : Str → Str → Option (Li
 
 /-- **instantiation_matches.**  If every marker value is accepted by its expression, the instantiated template
 is matched by the matching regex (`^regex$`: path through the radix-tree leaf, host). -/
-theorem instantiation_matches (laws : EngineLaws L ceq full search caps) (hrefl : ∀ c, ceq c c = true)
-    (t : Str) (ms : List (Str × Str)) (hplain : namesPlain ms = true) (hre : regexNoAt ms = true)
+theorem instantiation_matches (hrefl : ∀ c, ceq c c = true)
+    (t : Str) (ms : List (Str × Str)) (laws : EngineLaws L ceq full search caps (tokens t ms)) (hplain : namesPlain ms = true) (hre : regexNoAt ms = true)
     (v : Str → Str) (hacc : ∀ n re, Tok.grp n re ∈ tokens t ms → L re (v n)) :
     full (build t ms).regex (instOf (tokens t ms) v) = true := by
   rw [(regex_is_tokens t ms hplain hre).1, laws.full_iff]
   exact ⟨_, decomp_inst L ceq hrefl _ v hacc⟩
 
 /-- The same for a header trigger (`Regex::new(regex).is_match(value)`, unanchored). -/
-theorem instantiation_matches_header (laws : EngineLaws L ceq full search caps) (hrefl : ∀ c, ceq c c = true)
-    (t : Str) (ms : List (Str × Str)) (hplain : namesPlain ms = true) (hre : regexNoAt ms = true)
+theorem instantiation_matches_header (hrefl : ∀ c, ceq c c = true)
+    (t : Str) (ms : List (Str × Str)) (laws : EngineLaws L ceq full search caps (tokens t ms)) (hplain : namesPlain ms = true) (hre : regexNoAt ms = true)
     (v : Str → Str) (hacc : ∀ n re, Tok.grp n re ∈ tokens t ms → L re (v n)) :
     search (build t ms).regex (instOf (tokens t ms) v) = true := by
   rw [(regex_is_tokens t ms hplain hre).1, laws.search_iff]
   exact ⟨[], _, [], _, by simp, decomp_inst L ceq hrefl _ v hacc⟩
 
 /-- **matches_iff_decomposition.** -/
-theorem matches_iff_decomposition (laws : EngineLaws L ceq full search caps)
-    (t : Str) (ms : List (Str × Str)) (hplain : namesPlain ms = true) (hre : regexNoAt ms = true) (s : Str) :
+theorem matches_iff_decomposition
+    (t : Str) (ms : List (Str × Str)) (laws : EngineLaws L ceq full search caps (tokens t ms)) (hplain : namesPlain ms = true) (hre : regexNoAt ms = true) (s : Str) :
     full (build t ms).regex s = true ↔ ∃ vs, Decomp L ceq (tokens t ms) s vs := by
   rw [(regex_is_tokens t ms hplain hre).1, laws.full_iff]
 
@@ -188,33 +188,34 @@ theorem matches_iff_decomposition (laws : EngineLaws L ceq full search caps)
 is followed by a literal char that occurs neither in its instantiated value nor in any string its expression
 accepts) the instantiation decomposes only into itself; so if one value is rejected by its expression, the
 instantiated string is not matched by `^regex$`. -/
-theorem rejected_not_matches (laws : EngineLaws L ceq full search caps) (hrefl : ∀ c, ceq c c = true)
-    (t : Str) (ms : List (Str × Str)) (hplain : namesPlain ms = true) (hre : regexNoAt ms = true)
+theorem rejected_not_matches (hrefl : ∀ c, ceq c c = true)
+    (t : Str) (ms : List (Str × Str)) (laws : EngineLaws L ceq full search caps (tokens t ms)) (hplain : namesPlain ms = true) (hre : regexNoAt ms = true)
     (v : Str → Str) (hdelim : Delimited L ceq v (tokens t ms))
     (n re : Str) (hmem : Tok.grp n re ∈ tokens t ms) (hrej : ¬ L re (v n)) :
     full (build t ms).regex (instOf (tokens t ms) v) = false := by
   cases hf : full (build t ms).regex (instOf (tokens t ms) v) with
   | false => rfl
   | true =>
-    obtain ⟨vs, hvs⟩ := (matches_iff_decomposition L ceq full search caps laws t ms hplain hre _).mp hf
+    obtain ⟨vs, hvs⟩ := (matches_iff_decomposition L ceq full search caps t ms laws hplain hre _).mp hf
     exact absurd ((decomp_unique L ceq hrefl v _ hdelim vs hvs).2 n re hmem) hrej
 
 /-- Match ⇔ all values accepted, for delimiter-separated templates. -/
-theorem match_iff_all_accepted (laws : EngineLaws L ceq full search caps) (hrefl : ∀ c, ceq c c = true)
-    (t : Str) (ms : List (Str × Str)) (hplain : namesPlain ms = true) (hre : regexNoAt ms = true)
+theorem match_iff_all_accepted (hrefl : ∀ c, ceq c c = true)
+    (t : Str) (ms : List (Str × Str)) (laws : EngineLaws L ceq full search caps (tokens t ms)) (hplain : namesPlain ms = true) (hre : regexNoAt ms = true)
     (v : Str → Str) (hdelim : Delimited L ceq v (tokens t ms)) :
     full (build t ms).regex (instOf (tokens t ms) v) = true ↔ ∀ n re, Tok.grp n re ∈ tokens t ms → L re (v n) := by
   constructor
   · intro hf
-    obtain ⟨vs, hvs⟩ := (matches_iff_decomposition L ceq full search caps laws t ms hplain hre _).mp hf
+    obtain ⟨vs, hvs⟩ := (matches_iff_decomposition L ceq full search caps t ms laws hplain hre _).mp hf
     exact (decomp_unique L ceq hrefl v _ hdelim vs hvs).2
-  · exact instantiation_matches L ceq full search caps laws hrefl t ms hplain hre v
+  · exact instantiation_matches L ceq full search caps hrefl t ms laws hplain hre v
 
 /-- Without delimiters another decomposition may exist: `@a@b` with `a = [0-9]+`-like (accepts `1`, rejects `1x`)
 and `b` accepting `xy` and `y`: the instantiation `a := 1x`, `b := y` is also `a := 1`, `b := xy`.  Stated for any
 language with those four facts. -/
-theorem rejected_may_match_without_delimiter (laws : EngineLaws L ceq full search caps)
-    (a b : Str) (h1 : L a ['1']) (h3 : L b ['x','y']) :
+theorem rejected_may_match_without_delimiter
+    (a b : Str) (laws : EngineLaws L ceq full search caps [Tok.grp ['a'] a, Tok.grp ['b'] b])
+    (h1 : L a ['1']) (h3 : L b ['x','y']) :
     let ts := [Tok.grp ['a'] a, Tok.grp ['b'] b]
     let v : Str → Str := fun n => if n = ['a'] then ['1','x'] else ['y']
     full (renderRegex ts) (instOf ts v) = true := by
@@ -229,31 +230,154 @@ theorem rejected_may_match_without_delimiter (laws : EngineLaws L ceq full searc
 /-- A header trigger is searched unanchored: a rejected value that *contains* an accepted one matches
 (finding `header-unanchored`: the rule matches, the anchored capture regex does not, the markers stay
 unsubstituted). -/
-theorem header_rejected_value_matches (laws : EngineLaws L ceq full search caps)
-    (n re w x y : Str) (hw : L re w) : search (renderRegex [Tok.grp n re]) (x ++ w ++ y) = true := by
+theorem header_rejected_value_matches
+    (n re w x y : Str) (laws : EngineLaws L ceq full search caps [Tok.grp n re]) (hw : L re w) : search (renderRegex [Tok.grp n re]) (x ++ w ++ y) = true := by
   rw [laws.search_iff]
   exact ⟨x, w, y, [(n, w)], rfl, by simpa using (Decomp.grp (ceq := ceq) (n := n) hw .nil)⟩
 
 /-- **Captures are the instantiation** (capture law + unique decomposition): for a delimiter-separated template
 with distinct marker names, instantiated with accepted values, the capture regex returns exactly the
 instantiation. -/
-theorem captures_are_instantiation (laws : EngineLaws L ceq full search caps) (hrefl : ∀ c, ceq c c = true)
-    (t : Str) (ms : List (Str × Str)) (hplain : namesPlain ms = true) (hre : regexNoAt ms = true)
+theorem captures_are_instantiation (hrefl : ∀ c, ceq c c = true)
+    (t : Str) (ms : List (Str × Str)) (laws : EngineLaws L ceq full search caps (tokens t ms)) (hplain : namesPlain ms = true) (hre : regexNoAt ms = true)
     (v : Str → Str) (hnodup : (groupNames (tokens t ms)).Nodup) (hdelim : Delimited L ceq v (tokens t ms))
     (hacc : ∀ n re, Tok.grp n re ∈ tokens t ms → L re (v n)) :
     ∃ m, caps (build t ms).capture (instOf (tokens t ms) v) = some m ∧
       ∀ n, m.lookup n = (groupValues (tokens t ms) v).lookup n := by
   rw [(regex_is_tokens t ms hplain hre).2]
   have hd := decomp_inst L ceq hrefl (tokens t ms) v hacc
-  have hsome := laws.caps_complete (tokens t ms) _ hnodup ⟨_, hd⟩
+  have hsome := laws.caps_complete _ hnodup ⟨_, hd⟩
   cases hc : caps (renderCapture (tokens t ms)) (instOf (tokens t ms) v) with
   | none => rw [hc] at hsome; simp at hsome
   | some m =>
     refine ⟨m, rfl, ?_⟩
-    obtain ⟨vs, hvs, hlk⟩ := laws.caps_sound _ _ m hnodup hc
+    obtain ⟨vs, hvs, hlk⟩ := laws.caps_sound _ m hnodup hc
     rw [(decomp_unique L ceq hrefl v _ hdelim vs hvs).1] at hlk
     exact hlk
 
 end engine
+
+/-! ### Transformers are applied in order -/
+
+section transformers
+variable (cf : CaseFns)
+
+/-- **transformers_in_order.**  The value is `(Tₙ ∘ … ∘ T₁) v` over the recognised transformers of the list, in
+list order (`to_transform() = None`: unknown kind or missing option, skipped). -/
+theorem transformers_in_order (ts : List Transformer) (v : Str) :
+    applyTransformers cf ts v = (ts.filterMap Transformer.toTransform).foldl (fun acc tr => tr.apply cf acc) v := by
+  unfold applyTransformers
+  induction ts generalizing v with
+  | nil => rfl
+  | cons t ts ih =>
+    simp only [List.foldl_cons, List.filterMap_cons]
+    cases h : t.toTransform with
+    | none => simp only [h]; exact ih v
+    | some tr => simp only [h, List.foldl_cons]; exact ih _
+
+theorem transformers_append (ts₁ ts₂ : List Transformer) (v : Str) :
+    applyTransformers cf (ts₁ ++ ts₂) v = applyTransformers cf ts₂ (applyTransformers cf ts₁ v) := by
+  simp [applyTransformers, List.foldl_append]
+
+/-- What one captured value becomes: the marker's transformers in order (identity for a name without marker). -/
+def markerValue (r : Rule) (n v : Str) : Str :=
+  match r.getMarker n with
+  | none => v
+  | some m => applyTransformers cf m.transformers v
+
+theorem transformed_eq (r : Rule) (captured : List (Str × Str)) :
+    r.transformed cf captured = captured.map fun p => (p.1, markerValue cf r p.1 p.2) := by
+  unfold Rule.transformed markerValue
+  apply List.map_congr_left
+  intro p _
+  cases r.getMarker p.1 <;> rfl
+
+/-- Without `variables` the substituted value of a captured marker is its transformed capture … -/
+theorem marker_variable_value (r : Rule) (captured : List (Str × Str)) (q : Request) (n : Str)
+    (hbc : r.variables = []) :
+    (r.variablesUnsorted cf captured q).lookup n = (captured.lookup n).map (markerValue cf r n) := by
+  simp only [Rule.variablesUnsorted, hbc, List.isEmpty_nil, if_true]
+  rw [transformed_eq]
+  induction captured with
+  | nil => simp
+  | cons p ps ih =>
+    obtain ⟨k, v⟩ := p
+    simp only [List.map_cons, List.lookup_cons]
+    cases h : n == k with
+    | false => simpa using ih
+    | true => have : n = k := by simpa using h
+              simp [this]
+
+/-- … and an explicit variable of kind `marker` gets the variable's transformers applied on top of it. -/
+theorem explicit_marker_variable_value (name mn : Str) (ts : List Transformer) (input : List (Str × Str)) (q : Request) :
+    Variable.getValue cf ⟨name, .marker mn, ts⟩ input q = applyTransformers cf ts ((input.lookup mn).getD []) := rfl
+
+end transformers
+
+/-! ### End to end -/
+
+/-- Every template of the rule in which `from_route_rule` / `get_target` substitute. -/
+def templates (r : Rule) : List Str := r.target.toList ++ r.headerFilters ++ r.bodyFilters
+
+/-- **outcome_eq_spec.**  Location, `get_target`, custom header-filter values and body-filter contents are the
+simultaneous substitution of the rule's variable list (markers through their transformers, or the explicit
+variables) into the respective template, under the hypotheses of `substitution` for that list. -/
+theorem outcome_eq_spec (cf : CaseFns) (r : Rule) (probe : Str) (captured : List (Str × Str)) (q : Request)
+    (hn : namesNoAt (r.variablesUnsorted cf captured q) = true)
+    (hv : valuesNoAt (r.variablesUnsorted cf captured q) = true)
+    (hj : ∀ t ∈ templates r, noJoin (r.variablesUnsorted cf captured q) t = true) :
+    r.outcome cf probe captured q = r.outcomeSpec cf probe captured q := by
+  have key : ∀ t ∈ templates r, replaceVars t (r.vars cf captured q) = subst (r.variablesUnsorted cf captured q) t :=
+    fun t ht => substitution _ t hn hv (hj t ht)
+  unfold Rule.outcome Rule.outcomeSpec Rule.outcomeWith
+  have h1 : r.headerFilters.map (fun t => replaceVars t (r.vars cf captured q)) =
+      r.headerFilters.map (fun t => subst (r.variablesUnsorted cf captured q) t) :=
+    List.map_congr_left fun t ht => key t (by simp [templates, ht])
+  have h2 : r.bodyFilters.flatMap (fun t => replaceVars t (r.vars cf captured q)) =
+      r.bodyFilters.flatMap (fun t => subst (r.variablesUnsorted cf captured q) t) := by
+    have : r.bodyFilters.map (fun t => replaceVars t (r.vars cf captured q)) =
+        r.bodyFilters.map (fun t => subst (r.variablesUnsorted cf captured q) t) :=
+      List.map_congr_left fun t ht => key t (by simp [templates, ht])
+    simp only [List.flatMap_def, this]
+  rw [h1, h2]
+  cases ht : r.target with
+  | none => rfl
+  | some t =>
+    have := key t (by simp [templates, ht])
+    simp only [Option.map_some, this]
+
+/-- **End to end: `Location = target[@mᵢ := Tᵢ(vᵢ)]`.**  A rule without explicit variables whose captured markers
+are the instantiation `v` of the token list `ts` (that is what `captures_are_instantiation` provides from the
+capture law) redirects to the simultaneous substitution of `(mᵢ, Tᵢ (v mᵢ))` into the target. -/
+theorem location_is_target_with_transformed_values (cf : CaseFns) (r : Rule) (probe : Str) (q : Request)
+    (ts : List Tok) (v : Str → Str) (captured : List (Str × Str)) (t : Str)
+    (hbc : r.variables = []) (ht : r.target = some t) (hne : t ≠ [])
+    (hcap : ∀ n, captured.lookup n = (groupValues ts v).lookup n)
+    (hn : namesNoAt (r.variablesUnsorted cf captured q) = true)
+    (hv : valuesNoAt (r.variablesUnsorted cf captured q) = true)
+    (hj : ∀ t ∈ templates r, noJoin (r.variablesUnsorted cf captured q) t = true) :
+    (r.outcome cf probe captured q).location =
+      [subst ((groupNames ts).map fun n => (n, markerValue cf r n (v n))) t] := by
+  rw [outcome_eq_spec cf r probe captured q hn hv hj]
+  have hlook : ∀ n, (r.variablesUnsorted cf captured q).lookup n =
+      ((groupNames ts).map fun n => (n, markerValue cf r n (v n))).lookup n := by
+    intro n
+    rw [marker_variable_value cf r captured q n hbc, hcap n]
+    simp only [groupValues]
+    induction groupNames ts with
+    | nil => simp
+    | cons k ks ih =>
+      simp only [List.map_cons, List.lookup_cons]
+      cases h : n == k with
+      | false => simpa using ih
+      | true => have : n = k := by simpa using h
+                simp [this]
+  have hmem : ∀ m, m ∈ names (r.variablesUnsorted cf captured q) ↔
+      m ∈ names ((groupNames ts).map fun n => (n, markerValue cf r n (v n))) := by
+    intro m
+    rw [mem_names_iff_lookup, mem_names_iff_lookup, hlook m]
+  have hne' : t.isEmpty = false := by cases t <;> simp_all
+  simp only [Rule.outcomeSpec, Rule.outcomeWith, ht, hne', Bool.false_eq_true, if_false]
+  rw [subst_congr hmem hlook]
 
 end Rio.C10
